@@ -102,6 +102,9 @@ def faults_for_key(key, bodies, upload_bodies, quick):
         # a destination write failing with a connection / timeout class error (pipe reader gone, NFS timeout) is a write
         # failure, not a retryable download-stream error
         out.append({'at': key, 'phase': 'before', 'kind': 'brokenpipe'})
+        if '/dst:write' in key:
+            # a non-blocking destination that takes only part of the data and then raises BlockingIOError(characters_written=k)
+            out.append({'at': key, 'phase': 'before', 'kind': 'blockingio'})
         out.append({'at': key, 'phase': 'before', 'kind': 'timeouterr'})
         out.append({'at': key, 'phase': 'before', 'kind': 'fatal_exc'})
     elif '/fs:' in key:
